@@ -7,6 +7,7 @@
   `LineTensor.perpendicular`    : p on l :  p ∨ (a, b, 0)        p off l :  mirror(p) ∨ p
   `SubspaceTensor.project`      : l ∧ perpendicular(p)
   `PlaneTensor.perpendicular`   : p ∨ (a, b, c, 0);   `project` : e ∧ that line, closed form (e·q) p − (e·p) q  (C01, T01.6)
+  `Triangle.circumcenter` (plane): meet of the perpendiculars through the midpoints of the first two edges
   join and meet of the plane are cross products (C01, T01.1 / T01.2).
 -/
 import Geo.Spec.Basic
@@ -56,6 +57,13 @@ def normalDir3 (e : Nat → α) : Nat → α := fun k => match k with | 0 => e 0
 /-- `PlaneTensor.project`: `e ∧ (p ∨ (a,b,c,0))` up to the factor `±2s` of `T01_6_meet_L3E` -/
 def planeFoot (e p : Nat → α) : Nat → α :=
   fun i => dot 4 e (normalDir3 e) * p i - dot 4 e p * normalDir3 e i
+
+/-- the circumcentre construction on vertices with last coordinate 1 (midpoints as `a + b`, a representative of `(a + b)/2`) -/
+def circumcenter2 (a b c : Nat → α) : Nat → α :=
+  let m1 : Nat → α := fun k => a k + b k
+  let m2 : Nat → α := fun k => b k + c k
+  cross (perpOn2 (cross a b) m1) (perpOn2 (cross b c) m2)
+
 
 end
 end Geo
